@@ -821,7 +821,15 @@ impl<'a> crate::ranger::Store<SignedEntry> for StoreInstance<'a> {
             let key = (&e.id().namespace().to_bytes(), &e.id().author().to_bytes());
             let value = (e.timestamp(), e.id().key());
             let is_newer = match tables.latest_per_author.get(key)? {
-                Some(head) => value >= head.value(),
+                Some(head) => {
+                    let (head_timestamp, head_key) = head.value();
+                    // the head stays unless this entry is newer - or the entry the head names
+                    // was just pruned by this insert (same timestamp, a key that extends ours):
+                    // a head must name an entry that exists.
+                    value >= (head_timestamp, head_key)
+                        || (head_timestamp == e.timestamp()
+                            && tables.records.get((key.0, key.1, head_key))?.is_none())
+                }
                 None => true,
             };
             if is_newer {
